@@ -198,7 +198,7 @@ def run(repo: Repo, chk: Check, thorough: bool = False) -> None:
     for c in fcalls:
         for kw in c.keywords:
             v = kw.value
-            key = f'deprecatedToUsefulText :: {{{kw.arg}}}={norm(v)}'
+            key = f'deprecatedToUsefulText :: {{{kw.arg}}}'      # the template field (a keyword of format()), not the local that feeds it
             if not isinstance(v, ast.Name):
                 chk.ob('R10.5', key, False, 'interpolated value is not a simple variable', repo.loc(dep.mod, c))
                 continue
